@@ -424,6 +424,113 @@ theorem parseDb_ok (mem : Bytes) (d : DbImg) (mdata : Bytes) (h : WfDbImg mem.le
     simp only [Holds] at hm
     rw [metaOf, slice, Nat.min_eq_left this, slice_ofBytes _ _ _ hm.1, hm.2]
 
+/-! ### the writer's node against the slot audit -/
+
+theorem hasDup_of_nodup (l : List Nat) (h : l.Nodup) : hasDup l = false := by
+  induction l with
+  | nil => rfl
+  | cons a as ih =>
+    rw [List.nodup_cons] at h
+    simp only [hasDup, Bool.or_eq_false_iff]
+    exact ⟨by simpa using h.1, ih h.2⟩
+
+theorem layoutOffs_mem (acc : Nat) (es : List Bytes) (q : Nat × Nat) (hq : q ∈ layoutOffs acc es) :
+    ∃ i, ∃ h : i < es.length, (layoutOffs acc es)[i]? = some q ∧ q.2 = es[i].length ∧ acc + q.2 ≤ q.1 ∧ q.1 ≤ acc + total es := by
+  obtain ⟨i, hi, rfl⟩ := List.mem_iff_getElem.1 hq
+  rw [length_layoutOffs] at hi
+  obtain ⟨off, h1, h2, h3⟩ := layoutOffs_get acc es i hi
+  have h1' := h1
+  rw [List.getElem?_eq_getElem (by rw [length_layoutOffs]; exact hi)] at h1
+  simp only [Option.some.injEq] at h1
+  refine ⟨i, hi, by rw [h1', h1], by rw [h1], by rw [h1]; exact h2, by rw [h1]; exact h3⟩
+
+theorem usedSlots_mkNode (p : NodePlace) (lvl : Nat) (n : List Nat) (p0 : Nat) (recs : List (Bytes × Bytes)) :
+    usedSlots (mkNode p lvl n p0 recs) = (layoutOffs 0 (recs.map fun r => encKv r.1 r.2)).zipIdx := by
+  simp only [usedSlots, mkNode, layoutSlots, List.zipIdx_append, List.filter_append]
+  have h1 : ((layoutOffs 0 (recs.map fun r => encKv r.1 r.2)).zipIdx.filter fun x => decide (x.1.2 ≠ 0)) =
+      (layoutOffs 0 (recs.map fun r => encKv r.1 r.2)).zipIdx := by
+    rw [List.filter_eq_self]
+    intro x hx
+    have hm : x.1 ∈ layoutOffs 0 (recs.map fun r => encKv r.1 r.2) := by
+      obtain ⟨a, b⟩ := x
+      exact (List.mem_zipIdx hx).2.2 ▸ List.getElem_mem _
+    obtain ⟨i, hi, _, h2, _, _⟩ := layoutOffs_mem _ _ _ hm
+    simp only [List.length_map] at hi
+    have := encKv_length_pos recs[i].1 recs[i].2
+    simp only [List.getElem_map] at h2
+    simp only [ne_eq, decide_eq_true_eq]; omega
+  rw [h1]
+  rw [List.filter_eq_nil_iff.2, List.append_nil]
+  intro x hx
+  obtain ⟨a, b⟩ := x
+  have := (List.mem_zipIdx hx).2.2
+  simp only [List.getElem_replicate] at this
+  simp [this]
+
+/-- **The writer's node passes the slot audit**: records appended by `_kvblk_addkv` to a fresh block that fits them
+satisfy the geometry clause of property C06 (`checkSlots`). -/
+theorem mkNode_checkSlots (size : Nat) (p : NodePlace) (lvl : Nat) (n : List Nat) (p0 : Nat) (recs : List (Bytes × Bytes))
+    (h : NodeFits size p lvl n p0 recs) : checkSlots (mkNode p lvl n p0 recs) = none := by
+  have hu := usedSlots_mkNode p lvl n p0 recs
+  have hfit := h.fits
+  have hidx : (mkNode p lvl n p0 recs).idxsz = (encSlots (layoutSlots recs)).length := rfl
+  have hsz : (mkNode p lvl n p0 recs).szpow = p.szpow := rfl
+  -- facts about the i-th used slot
+  have hget : ∀ i (hi : i < recs.length), ∃ off len, (usedSlots (mkNode p lvl n p0 recs))[i]? = some ((off, len), i) ∧
+      (layoutOffs 0 (recs.map fun r => encKv r.1 r.2))[i]? = some (off, len) ∧ 0 < len ∧ len ≤ off ∧
+      off ≤ total (recs.map fun r => encKv r.1 r.2) := by
+    intro i hi
+    obtain ⟨off, h1, h2, h3⟩ := layoutOffs_get 0 (recs.map fun r => encKv r.1 r.2) i (by simpa using hi)
+    have := encKv_length_pos recs[i].1 recs[i].2
+    simp only [List.getElem_map, Nat.zero_add] at h1 h2 h3
+    refine ⟨off, _, ?_, h1, this, h2, h3⟩
+    rw [hu, List.getElem?_zipIdx, h1]; simp
+  have hlen : (usedSlots (mkNode p lvl n p0 recs)).length = recs.length := by
+    rw [hu, List.length_zipIdx, length_layoutOffs, List.length_map]
+  have h1 : (usedSlots (mkNode p lvl n p0 recs)).find? (slotOutside (mkNode p lvl n p0 recs)) = none := by
+    rw [List.find?_eq_none]
+    intro x hx
+    obtain ⟨i, hi, rfl⟩ := List.mem_iff_getElem.1 hx
+    rw [hlen] at hi
+    obtain ⟨off, len, a1, _, a3, a4, a5⟩ := hget i hi
+    rw [List.getElem?_eq_getElem (by rw [hlen]; exact hi)] at a1
+    simp only [Option.some.injEq] at a1
+    rw [a1]
+    simp only [slotOutside, hidx, hsz, decide_eq_true_eq]
+    omega
+  have hivl : (slotIvs (mkNode p lvl n p0 recs)).length = recs.length := by simp [slotIvs, hlen]
+  have hiv : ∀ i (hi : i < recs.length), ∃ off len, (slotIvs (mkNode p lvl n p0 recs))[i]? =
+      some (2 ^ p.szpow - off, 2 ^ p.szpow - off + len) ∧
+      (layoutOffs 0 (recs.map fun r => encKv r.1 r.2))[i]? = some (off, len) ∧ len ≤ off ∧
+      off ≤ total (recs.map fun r => encKv r.1 r.2) := by
+    intro i hi
+    obtain ⟨off, len, a1, a2, _, a4, a5⟩ := hget i hi
+    exact ⟨off, len, by simp [slotIvs, a1, hsz], a2, a4, a5⟩
+  have h2 : (slotIvs (mkNode p lvl n p0 recs)).zipIdx.find? (fun x => (slotIvs (mkNode p lvl n p0 recs)).zipIdx.any
+      fun y => x.2 < y.2 ∧ overlap x.1 y.1) = none := by
+    rw [List.find?_eq_none]
+    intro x hx
+    simp only [List.any_eq_true, not_exists, not_and]
+    intro y hy
+    obtain ⟨xi, i⟩ := x
+    obtain ⟨yj, j⟩ := y
+    have hxi := List.mem_zipIdx hx
+    have hyj := List.mem_zipIdx hy
+    simp only [Nat.zero_add, Nat.sub_zero, hivl] at hxi hyj
+    obtain ⟨oi, li, b1, b2, b3, b4⟩ := hiv i hxi.2.1
+    obtain ⟨oj, lj, c1, c2, c3, c4⟩ := hiv j hyj.2.1
+    rw [List.getElem?_eq_getElem (by rw [hivl]; exact hxi.2.1)] at b1
+    rw [List.getElem?_eq_getElem (by rw [hivl]; exact hyj.2.1)] at c1
+    simp only [Option.some.injEq] at b1 c1
+    rw [hxi.2.2, hyj.2.2, b1, c1]
+    simp only [overlap, Bool.decide_and, Bool.and_eq_true, decide_eq_true_eq, not_and]
+    intro hij
+    have hsep := layoutOffs_sep 0 _ i j hij (by simpa using hyj.2.1) _ _ b2 c2
+    simp only at hsep
+    omega
+  simp only [checkSlots, h1, h2, mkNode_pi, hasDup_of_nodup _ List.nodup_range, hlen]
+  simp [mkNode]
+
 /-! ### a database (list of nodes with levels and records) placed by a layout -/
 
 theorem recWrites_mkNode_mem (p : NodePlace) (lvl : Nat) (n : List Nat) (p0 : Nat) (recs : List (Bytes × Bytes))
